@@ -131,6 +131,31 @@ def impl(case):
             except Exception as e:
                 ans = {"err": C.exc_enum(e)}
             after = [None if s.transform is None else s.transform.parameters.tolist() for s in w.pipeline]
+            # a second derivation from the derived WCS (integer keys are positions among the inputs still free)
+            nested = None
+            try:
+                fixed1 = {int(k): float(G.fr(v)) for k, v in q["fixed"]}
+                nin0 = w.forward_transform.n_inputs
+                free1 = [i for i in range(nin0) if i not in fixed1]
+                if len(free1) >= 2:
+                    nw1 = w.fix_inputs(dict(fixed1))
+                    pos = len(free1) - 1                       # hold the last free input
+                    c2 = 1.75
+                    nw2 = nw1.fix_inputs({pos: c2})
+                    free2 = free1[:-1]
+                    pt2 = [2.5 + j for j in range(len(free2))]
+                    full = [0.0] * nin0
+                    for i, v in fixed1.items():
+                        full[i] = v
+                    full[free1[-1]] = c2
+                    for i, v in zip(free2, pt2):
+                        full[i] = v
+                    a2 = nw2(*pt2, with_bounding_box=False)
+                    b2 = w(*full, with_bounding_box=False)
+                    no2 = len(b2) if isinstance(b2, tuple) else 1
+                    nested = [G.canon_vals(a2, no2), G.canon_vals(b2, no2), nw2.forward_transform.n_inputs, len(free2)]
+            except Exception as e:
+                nested = "err:" + C.exc_enum(e) + ":" + str(e)[:60]
             # the same with a bounding box on the original: the derived WCS must mask exactly where the original does
             try:
                 wb, _ = _build_wcs(case)
@@ -156,7 +181,7 @@ def impl(case):
                 box_res = {"box_err": C.exc_enum(e) + ":" + str(e)[:80]}
             answers.append(ans)
             extra.append(dict({"orig_unchanged": before == after and list(w.available_frames) == snap_names,
-                               "orig_nin": w.forward_transform.n_inputs}, **box_res))
+                               "orig_nin": w.forward_transform.n_inputs, "nested": nested}, **box_res))
     # independent hand composition of the step transforms, for the oracle
     hand = []
     steps = [s.transform for s in w.pipeline]
@@ -248,6 +273,12 @@ def oracle(case, res):
                 out.append(("fix", "fixed WCS gives %s, original with inputs held gives %s" % (ans["new"]["v"], hand)))
             if not ex["orig_unchanged"]:
                 out.append(("fix_pure", "fix_inputs changed the original WCS"))
+            nst = ex.get("nested")
+            if isinstance(nst, str):
+                out.append(("fix_nested", "a second fix_inputs on the derived WCS failed: %s" % nst))
+            elif nst is not None and (nst[0] != nst[1] or nst[2] != nst[3]):
+                out.append(("fix_nested", "fixing a further input of the derived WCS gives %s with %d free inputs, the original with all of them held gives %s (%d free)" %
+                            (nst[0], nst[2], nst[1], nst[3])))
             for a, b in ex.get("box", []):
                 if a != b:
                     out.append(("fix_box", "with a bounding box: fixed WCS gives %s, original with inputs held gives %s" % (a, b)))
